@@ -73,7 +73,7 @@ def build_impl(race=False, verbose=False):
             ("hr_cover", ["go", "build", "-cover", "-coverpkg=" + COVERPKG, "-o", os.path.join(d, "hr_cover"), "."], "cmd/hranoprovod-cli"),
         ]
         if race:
-            jobs.append(("pub_race", ["go", "build", "-race", "-cover", "-coverpkg=" + COVERPKG, "-tags", "verif", "-o", os.path.join(d, "pub_race"), "./verifpub"], "."))
+            jobs.append(("pub_race", ["go", "build", "-race", "-tags", "verif", "-o", os.path.join(d, "pub_race"), "./verifpub"], "."))
         procs = []
         for name, cmd, cwd in jobs:
             if os.path.exists(os.path.join(d, name)): continue
